@@ -367,7 +367,14 @@ func runSolver(ctx context.Context, sc SolverCfg, file string, timeoutS, seed in
 	cmd.Stderr = &out
 	_ = cmd.Run()
 	s := out.String()
-	first := strings.TrimSpace(strings.SplitN(s, "\n", 2)[0])
+	first := ""
+	for _, ln := range strings.Split(s, "\n") {
+		// solver warnings (e.g. about a pattern it drops) precede the answer
+		if ln = strings.TrimSpace(ln); ln != "" && !strings.HasPrefix(ln, "WARNING") {
+			first = ln
+			break
+		}
+	}
 	switch first {
 	case "unsat", "sat", "unknown":
 		return first, s
@@ -479,6 +486,14 @@ func DischargeAll(obls []*Obligation, workdir string, timeoutS int, par int, see
 				return
 			}
 			total := o.TimeS
+			// the whole portfolio first (old z3 and cvc5 decide goals the two z3-new configurations do not): a candidate
+			// counterexample of the weakened query below must not pre-empt a proof
+			o.Discharge(workdir, first, true, seed)
+			total += o.TimeS
+			if o.Result == "unsat" || o.Result == "sat" {
+				o.TimeS = total
+				return
+			}
 			// counterexample search: same query without the quantified prelude (a model of it is a
 			// candidate counterexample, validated by replay)
 			prevRes, prevOut := o.Result, o.Model
